@@ -1071,6 +1071,35 @@ def internal_names_schema(package="intnames"):
     return s
 
 
+def package_name_clash_schemas():
+    """Entities named like the schema itself (the `package` attribute, i.e. the top-level namespace of everything that is
+    generated): a message, a nested group, a field and a <data> member in one schema; a public composite, its element
+    and an enum in another.  Inside such a class the injected class name hides the namespace, so any generated reference
+    that is not anchored at the global namespace breaks (seeded change C07-6)."""
+    from . import refmodel
+    out = []
+    nid = _ids()
+    p1 = "pkgmsg"
+    out.append(Schema(p1, id=13, version=0, types=[std_header(), std_dimension(), std_vardata()], messages=[
+        Message(p1, 1, [Field("a", nid(), "uint8"), Field("b", nid(), "uint16")],
+                [Group("g", nid(), [Field("z", nid(), "uint8")], [Group(p1, nid(), [Field("x", nid(), "uint8")], [], [])], [])],
+                [Data("d", nid(), "varDataEncoding")]),
+        Message("other", 2, [Field(p1, nid(), "uint32")], [Group("h", nid(), [Field("y", nid(), "uint8")], [], [Data(p1, nid(), "varDataEncoding")])], [])],
+        description="message, group, field and data named like the package", name=p1))
+    nid = _ids()
+    p2 = "pkgtype"
+    out.append(Schema(p2, id=14, version=0, types=[
+        std_header(), std_dimension(), std_vardata(),
+        Composite(p2, [Type(p2, "uint16"), Type("x", "uint8"), Enum("e", "uint8", [EnumValue(p2, "1"), EnumValue("o", "2")])]),
+        SetT("flags", "uint8", [Choice(p2, 0), Choice("q", 5)])], messages=[
+        Message("m", 1, [Field("c", nid(), p2), Field("f", nid(), "flags")], [Group("g", nid(), [Field("c", nid(), p2)], [], [])], [])],
+        description="composite, element, enum value and choice named like the package", name=p2))
+    for s in out:
+        refmodel.fix_offsets(s)
+        refmodel.fit_ids_to_header(s)
+    return out
+
+
 def big_header_schema(package="bighdr"):
     """Identifying values beyond 32 bits: schema version, message block length and group block length >= 2^32 in 64-bit
     header members (C17 only: the fillers touch nothing but the header, so no buffer of that size is needed).  Added after
